@@ -48,10 +48,22 @@ def gen_expr(rng, pool):
     else:
         b = random_uexpr(rng, pool, nfactors=rng.choice([1, 1, 2]))
     op = rng.choice(["/", "/", "*"])
+    root = rng.random() < 0.2
+    if root:
+        x, y = abs(x), abs(y)
     e = f"{plit(x)} * ({a.text}) {op} ({plit(y)} * ({b.text}))"
     if rng.random() < 0.2:
         c = random_uexpr(rng, pool, nfactors=1)
-        e = f"{e} {rng.choice(['*', '/'])} ({plit(random_magnitude(rng, allow_zero=False))} * ({c.text}))"
+        e = f"{e} {rng.choice(['*', '/'])} ({plit(abs(random_magnitude(rng, allow_zero=False)))} * ({c.text}))"
+    if root:
+        # fractional powers of the whole product, or of its factors separately (units then carry rational exponents)
+        k = rng.choice(["sqrt", "cbrt", "^(1/2)", "^(3/2)", "^(2/3)", "split"])
+        if k in ("sqrt", "cbrt"):
+            e = f"{k}({e})"
+        elif k == "split":
+            e = f"sqrt({plit(x)} * ({a.text})) {'*' if op == '*' else '/'} sqrt({plit(y)} * ({b.text}))"
+        else:
+            e = f"({e}){k}"
     return e, a
 
 
